@@ -121,6 +121,10 @@ pub fn run_case(report: &Report, o: Oracle, cl: &Classes, case: &Case, with_ref:
                 LoginFail::Panic(stage, m) => (format!("panic-{stage}"), format!("{stage} panicked: {m}")),
                 LoginFail::Refused(stage, m) => (format!("refused-{stage}"), format!("honest exchange refused at {stage}: {m}")),
                 LoginFail::Rng(m) => mc::util::machinery_error(&format!("login harness does not own the RNG: {m}; case {}", case.json())),
+                LoginFail::Redrawn => {
+                    report.count("logins_skipped_library_draws_again_for_a_degenerate_value", 1);
+                    return;
+                }
             };
             // both oracles report an honest exchange that does not complete
             viol(report, o, &class, case, json!({}), msg);
@@ -438,6 +442,7 @@ pub fn run(o: Oracle, tier: Tier, seed: u64) -> i32 {
     report.set("exhaustive", json!(false));
     report.cap_hit("the 2^256 key/salt space is represented by alphabets, ranges and constructed classes, not enumerated");
     report.assume("private keys, salts and credentials outside the stated alphabets, ranges and witnesses are not explored");
+    report.count("cases_skipped_because_the_library_draws_again_for_a_degenerate_scripted_value", NOT_OWNED.load(Ordering::Relaxed));
     if o == Oracle::C01 {
         report.assume("byte-exactness against the reference model is C03's oracle; C01 decides acceptance, key agreement and storage round trip");
     }
